@@ -107,4 +107,53 @@ theorem rewrite_keeps_mesh (Hin : HData) (hin : Hin.Good) (l : Nat) (hl : l < Hi
     simp only [List.map_map, List.map_take]
     rfl
 
+
+/-! ### plotfile-format slices -/
+
+theorem slice2D_read_back (fl : Bytes → Bytes) (m : Meta) (coord : Bytes) (names : List Bytes) (cx cy : Nat) (sel : List (List Nat))
+    (hg : (slice2D fl m coord names cx cy sel).goodB = true) :
+    parse (render (slice2D fl m coord names cx cy sel)) none =
+      .ok ((slice2D fl m coord names cx cy sel).meta (slice2D fl m coord names cx cy sel).levels.length) :=
+  parse_render _ (HData.goodB_sound _ hg)
+
+/-- **what the 2D header of a slice says** (float tokens in shortest form): two dimensions, the sliced field names, the
+    input's time, levels `0 … limit`, the in-plane components of the domain bounds and of every level's cell sizes and grid
+    sizes, and per level exactly the in-plane bounds of the boxes whose numbers were selected, in that order -/
+theorem slice2D_meta (m : Meta) (coord : Bytes) (names : List Bytes) (cx cy : Nat) (sel : List (List Nat)) :
+    let n := (m.limitLevel + 1).toNat
+    let H := slice2D id m coord names cx cy sel
+    let M := H.meta H.levels.length
+    H.levels.length = n ∧ M.ndims = 2 ∧ M.fields = tableOf names ∧ M.time = m.time ∧
+    M.geoLo = [m.geoLo.getD cx [], m.geoLo.getD cy []] ∧ M.geoHi = [m.geoHi.getD cx [], m.geoHi.getD cy []] ∧
+    M.dx = (m.dx.take n).map (fun d => [d.getD cx [], d.getD cy []]) ∧
+    M.gridSizes = (m.gridSizes.take n).map (fun g => [g.getD cx 0, g.getD cy 0]) ∧
+    M.steps = m.steps.take n ∧
+    M.boxes = (List.range n).map (fun lv => (sel.getD lv []).map fun i => box2D id cx cy ((m.boxes.getD lv []).getD i [])) ∧
+    M.npoints = (List.range n).map (fun lv => ((sel.getD lv []).length : Int)) := by
+  intro n H M
+  have hlen : H.levels.length = n := by
+    show (slice2D id m coord names cx cy sel).levels.length = _
+    simp [slice2D, n]
+  have htake : H.levels.take H.levels.length = H.levels := List.take_length
+  refine ⟨hlen, rfl, rfl, rfl, rfl, rfl, ?_, ?_, rfl, ?_, ?_⟩
+  · show ((m.dx.take n).map fun d => [id (d.getD cx []), id (d.getD cy [])]) = _
+    rfl
+  · show ((m.gridSizes.take n).map fun g => [g.getD cx 0 - 1, g.getD cy 0 - 1]).map (·.map (· + 1)) = _
+    rw [List.map_map]
+    apply List.map_congr_left
+    intro g _
+    simp only [Function.comp, List.map_cons, List.map_nil, Int.sub_add_cancel]
+  · show (H.levels.take H.levels.length).map (fun (l : LevelData) => l.boxes) = _
+    rw [htake]
+    show ((slice2D id m coord names cx cy sel).levels).map (fun (l : LevelData) => l.boxes) = _
+    simp only [slice2D, List.map_map]
+    rfl
+  · show (H.levels.take H.levels.length).map (fun (l : LevelData) => (l.boxes.length : Int)) = _
+    rw [htake]
+    show ((slice2D id m coord names cx cy sel).levels).map (fun (l : LevelData) => (l.boxes.length : Int)) = _
+    simp only [slice2D, List.map_map]
+    apply List.map_congr_left
+    intro lv _
+    simp [Function.comp]
+
 end Header
